@@ -25,13 +25,13 @@ RULE = ('seeded segment histories (2-12 segments, 1-4 channels) whose per-object
         'one forbidden encoding and require an error. distinct = sequence of (flags, header choices); non-trivial '
         '= some object used an inherited encoding (matches-previous, no-data, unlisted carry-over or no metadata)')
 EXPECTED_PROBES = ['t:same-after-none', 't:same-after-absent', 't:meta-less-after-flip', 'reordered-same-set',
-                   'forbidden:same-unseen', 'forbidden:first-no-meta', 'forbidden:type-change', 't:unlisted-carry']
+                   'forbidden:same-unseen', 'forbidden:first-no-meta', 'forbidden:type-change', 't:unlisted-carry', 'long-history']
 
 
 def opts(tier):
     o = gen.Opts()
     o.max_segments = 12
-    o.many_segments_p = 0.0
+    o.many_segments_p = 0.012        # 100+ segments: anything keyed or batched by a block size
     o.max_channels = 4
     o.p_no_meta = 0.25
     o.p_keep_list = 0.6
@@ -325,7 +325,12 @@ def execute(case):
         transitions(res, spec)
         res.nontrivial = inherited(spec)
         prev = None
-        for k in range(1, len(spec['segments']) + 1):
+        nseg = len(spec['segments'])
+        ks = list(range(1, nseg + 1))
+        if nseg > 15:
+            res.probe('long-history')
+            ks = sorted(set([1, 2, 3, nseg // 2, nseg - 1, nseg] + list(range(17, nseg, 29))))     # a tailing reader that polls rarely
+        for k in ks:
             pre = dict(spec)
             pre['segments'] = spec['segments'][:k]
             w = build(pre)
